@@ -418,6 +418,15 @@ func sortRules(l []*nsxRule, m map[string]*nsxGroup) {
 		}
 		return cmp.Compare(ei, ej)
 	}
+	groupCmp := func(ei, ej string) int {
+		gi := getGroup(ei, m)
+		gj := getGroup(ej, m)
+		if gi == nil || gj == nil {
+			return 0
+		}
+		return slices.Compare(
+			gi.Expression[0].IPAddresses, gj.Expression[0].IPAddresses)
+	}
 	boolCmp := func(a, b bool) int {
 		if a == b {
 			return 0
@@ -472,7 +481,15 @@ func sortRules(l []*nsxRule, m map[string]*nsxGroup) {
 		if n := elementCmp(a.SourceGroups[0], b.SourceGroups[0]); n != 0 {
 			return n
 		}
-		return elementCmp(a.DestinationGroups[0], b.DestinationGroups[0])
+		if n := elementCmp(a.DestinationGroups[0], b.DestinationGroups[0]); n != 0 {
+			return n
+		}
+		// Groups start with same address. Compare all addresses,
+		// otherwise order would depend on position in input.
+		if n := groupCmp(a.SourceGroups[0], b.SourceGroups[0]); n != 0 {
+			return n
+		}
+		return groupCmp(a.DestinationGroups[0], b.DestinationGroups[0])
 	})
 }
 
